@@ -417,7 +417,7 @@ fn c10_scenario(rng: &mut Rng) -> Scenario {
     let opts = CatalogOpts { zone: ZoneOpts { max_records: 16, hostile: false, bulky: false }, max_zones: 2, allow_unloaded: false, classes: vec![C_IN] };
     let built = gen_catalog(rng, &opts);
     let names = interesting_names(rng, &built.reference);
-    let cfg = ServerCfg { payload: *rng.pick(&[512u16, 1232, 4096]), rrl: None, keys: gen_keys(rng, &names) };
+    let cfg = ServerCfg { payload: *rng.pick(&[512u16, 1232, 4096]), rrl: None, keys: if rng.chance(1, 10) { Vec::new() } else { gen_keys(rng, &names) } };
     let server = make_server(Arc::new(built.catalog.clone()), &cfg);
     let bufs = Buffers::roomy(cfg.payload, rng);
     Scenario { built, server, cfg, bufs, names, classes: vec![C_IN] }
@@ -435,7 +435,9 @@ pub fn run_c10(ctx: &Ctx, rep: &mut Report) {
         }
         let mut sc = c10_scenario(&mut rng);
         for _ in 0..24 {
-            let key = rng.pick(&sc.cfg.keys).clone();
+            // (a server without any key: every signed request names an unknown key)
+            let no_keys = sc.cfg.keys.is_empty();
+            let key = if no_keys { Key { name: RName::simple("unconfigured.example."), alg: if rng.bool() { Alg::Sha1 } else { Alg::Sha256 }, secret: rng.bytes(32) } } else { rng.pick(&sc.cfg.keys).clone() };
             let mut spec = gen_query(&mut rng, &sc.names, &[C_IN], (1, 3));
             if rng.chance(1, 12) {
                 // ignorable additional records in front, so that ARCOUNT (with the TSIG record) is
@@ -447,7 +449,7 @@ pub fn run_c10(ctx: &Ctx, rep: &mut Report) {
                 }
             }
             let (base, _) = encode(&spec);
-            let variant = *rng.pick(&[Variant::Valid, Variant::Valid, Variant::Valid, Variant::Truncated, Variant::BadMac, Variant::UnknownKey, Variant::UnknownAlg, Variant::WrongAlgForKey, Variant::BadMacLen, Variant::Stale, Variant::Future, Variant::BadMacAndStale]);
+            let variant = if no_keys { Variant::UnknownKey } else { *rng.pick(&[Variant::Valid, Variant::Valid, Variant::Valid, Variant::Truncated, Variant::BadMac, Variant::UnknownKey, Variant::UnknownAlg, Variant::WrongAlgForKey, Variant::BadMacLen, Variant::Stale, Variant::Future, Variant::BadMacAndStale]) };
             let now = now_unix();
             let mut o = SignOpts::at(now);
             o.fudge = *rng.pick(&[300u16, 300, 60, 1000]);
